@@ -715,7 +715,7 @@ func TestVerif_C33(t *testing.T) {
 	enc.init()
 
 	// --- prefixed integers: append side against the reference reader, read side over a stream ---
-	r.Cases("prefixed-int", r.N(4, 40), func(c *verifrt.Case) {
+	r.Cases("prefixed-int", r.N(4, 60), func(c *verifrt.Case) {
 		type tc struct {
 			n    uint8
 			high byte
@@ -800,7 +800,7 @@ func TestVerif_C33(t *testing.T) {
 	// --- round trip ---
 	const batch = 100
 	var sampled int
-	r.CasesParallel("roundtrip", r.N(100, 600), 8, func(c *verifrt.Case) {
+	r.CasesParallel("roundtrip", r.N(100, 1000), 8, func(c *verifrt.Case) {
 		inner, outer := vqsBubble(t, func(t *testing.T) {
 			p := vqsNewPair(t)
 			for k := 0; k < batch; k++ {
@@ -929,7 +929,7 @@ func TestVerif_C33(t *testing.T) {
 
 	// --- hostile ---
 	var hsampled int
-	r.CasesParallel("hostile", r.N(400, 2400), 8, func(c *verifrt.Case) {
+	r.CasesParallel("hostile", r.N(400, 4000), 8, func(c *verifrt.Case) {
 		inner, outer := vqsBubble(t, func(t *testing.T) {
 			p := vqsNewPair(t)
 			for k := 0; k < batch; k++ {
@@ -1026,7 +1026,7 @@ func TestVerif_C33(t *testing.T) {
 	})
 
 	r.Require("ints_read_back", 10000)
-	r.Require("rt_lists", int64(r.N(100, 600)*batch*9/10))
+	r.Require("rt_lists", int64(r.N(100, 1000)*batch*9/10))
 	r.Require("rt_lines_indexed", 500)
 	r.Require("rt_lines_name_reference", 500)
 	r.Require("rt_lines_literal_name", 500)
@@ -1035,7 +1035,7 @@ func TestVerif_C33(t *testing.T) {
 	r.Require("rt_raw_strings", 500)
 	r.Require("rt_nonascii_names_skipped", 100)
 	r.Require("rt_trailing_frame_intact", 100)
-	r.Require("hostile_payloads", int64(r.N(400, 2400)*batch*9/10))
+	r.Require("hostile_payloads", int64(r.N(400, 4000)*batch*9/10))
 	for _, k := range []string{qpackref.RejRIC, qpackref.RejDynIndexed, qpackref.RejDynNameRef, qpackref.RejPostBaseIndexed, qpackref.RejPostBaseNameRef,
 		qpackref.RejStaticOOB, qpackref.RejStringOversized, qpackref.RejHuffman, qpackref.RejEmptyName, qpackref.RejPseudoAfterReg, qpackref.RejTruncated} {
 		r.Require("ref_reject_"+k, 50)
